@@ -159,3 +159,14 @@ package crdt
 //@   ensures err == nil ==> sameslice(as(d, *CounterDelta).Data, res(FieldValue.Bytes, 1, 0))
 //@   modifies failed, storeFailed
 //@   tags C13 C04
+//@
+//@ // the value key that is read, compared and written is the one selected by the object marker
+//@ // (the deleted-flag variant for a deleted document), never a different variant of the key
+//@ func (*Counter).incrementValue
+//@   assert before call#1 Set: callarg(DataStoreKey.Bytes, 1, 0) == key && sameslice(arg2, res(DataStoreKey.Bytes, 1, 0))
+//@   tags C02 C01
+//@ func (*LWW).setValue
+//@   assert before call#1 Set: callarg(DataStoreKey.Bytes, 3, 0) == key && sameslice(arg2, res(DataStoreKey.Bytes, 3, 0))
+//@   assert before call#1 Delete: callarg(DataStoreKey.Bytes, 2, 0) == key && sameslice(arg2, res(DataStoreKey.Bytes, 2, 0))
+//@   assert before call#2 Get: callarg(DataStoreKey.Bytes, 1, 0) == key && sameslice(arg2, res(DataStoreKey.Bytes, 1, 0))
+//@   tags C01 C02
